@@ -143,6 +143,23 @@ theorem pass_across (h zoff dz : ℚ) (hdz : 0 < dz) (hpos : 0 < h - zoff) (hz :
   push_cast
   constructor <;> nlinarith
 
+/-- **the wall loop of the call file realises the schedule**: entered ready at the starting depth of level `L`
+(`(L h + z_off) / neff` in controller coordinates, `$ZCURR` set to it, the wall program loaded and bound to an x/y-only file),
+`k` turns of `REPEAT { [DWELL] FARCALL wall; $ZCURR = $ZCURR + deltaz/neff; G1 Z$ZCURR }` leave the controller ready at glass
+depth `passZ L k` — so pass number `k` (counted from 0) is traced at exactly that depth, for every `k`, call depth and
+pause setting.  The harness checks on every run that every `REPEAT` of every real call file has this shape. -/
+theorem wall_loop_depths (t : Tree) (f : ℕ) (p : String) (h zoff dz neff : ℚ) (hneff : neff ≠ 0) (L k : ℕ) (σ : St)
+    (hr : Ready t p ((L * h + zoff) / neff) σ) :
+    Ready t p (passZ h zoff dz L k / neff) (execRepG (stepT t (f + 1)) k (wallLoopBody p (dz / neff)) σ).1 ∧
+    ∀ q, Ready t p (passZ h zoff dz L k / neff) (execRepG (stepT t (f + 1)) k (wallLoopBodyD q p (dz / neff)) σ).1 := by
+  have e : (L * h + zoff) / neff + (k : ℚ) * (dz / neff) = passZ h zoff dz L k / neff := by
+    unfold passZ; field_simp
+  refine ⟨?_, fun q => ?_⟩
+  · have := execRepG_wall t f p (dz / neff) k _ σ hr
+    rwa [e] at this
+  · have := execRepG_wallD t f q p (dz / neff) k _ σ hr
+    rwa [e] at this
+
 /-- the whole column: `nboxz * n_repeat` passes -/
 theorem schedule_length (h zoff dz : ℚ) (nboxz : ℕ) : (schedule h zoff dz nboxz).length = nboxz * nRepeat h zoff dz := by
   unfold schedule
